@@ -431,6 +431,10 @@ fn ising_timestep(ctx: &mut Ctx, g: &mut G<SplitMix64>, beta: f64, rvb: bool) ->
             g.single_cluster_step();
         });
     }
+    if !ok {
+        // a piece panicked (already reported as a failing case); the sampler is unusable now
+        return false;
+    }
     let same = match (&rw, ok) {
         (Ok(()), true) => json_eq_except(
             &serde_json::to_value(&whole).unwrap(),
@@ -475,6 +479,9 @@ fn generic_timestep(ctx: &mut Ctx, q: &mut Q, beta: f64) -> bool {
     }
     if ok {
         ok = generic_single(ctx, q, "free", "timestep/flip_free_bits", |q| q.flip_free_bits());
+    }
+    if !ok {
+        return false;
     }
     let same = match (&rw, ok) {
         (Ok(()), true) => json_eq_except(&serde_json::to_value(&whole).unwrap(), &serde_json::to_value(&*q).unwrap(), &[]),
@@ -1064,6 +1071,118 @@ fn build_generic(r: &mut SplitMix64, kind: u64, nvars: usize, state: Vec<bool>, 
                 }
             }
         }
+        5 => {
+            // CONSTANT interactions over two and three variables (all 4^k entries equal): they are
+            // NOT cluster edges (only single-site constant ops are), so a cluster must run through
+            // all of their legs. Next to Ising-symmetric bonds and single-site constant terms on a
+            // SUBSET of the variables (so world lines of different variables are cut differently).
+            let c2 = *r.pick(&[0.5, 1.0, 2.0]);
+            let j = *r.pick(&[0.5, 1.0, 1.5]);
+            let c = *r.pick(&[0.5, 1.0, 2.0]);
+            let ferro = r.coin();
+            let mut terms: Vec<(u8, usize)> = vec![];
+            for v in 0..nvars - 1 {
+                terms.push((0, v));
+                if v == 0 || r.coin() {
+                    terms.push((2, v));
+                }
+            }
+            // single-site constant terms: variable 0 always, the others sometimes
+            terms.push((1, 0));
+            for v in 1..nvars {
+                if r.chance(1, 3) {
+                    terms.push((1, v));
+                }
+            }
+            if nvars >= 3 {
+                terms.push((3, r.below(nvars as u64 - 2) as usize));
+            }
+            for i in (1..terms.len()).rev() {
+                let k = r.below(i as u64 + 1) as usize;
+                terms.swap(i, k);
+            }
+            for (k, v) in terms {
+                match k {
+                    0 => {
+                        let m = if ferro { vec![j, 0.0, 0.0, j] } else { vec![0.0, j, j, 0.0] };
+                        q.make_diagonal_interaction(m, vec![v, v + 1]).unwrap();
+                    }
+                    1 => q.make_interaction(vec![c, c, c, c], vec![v]).unwrap(),
+                    2 => {
+                        if r.coin() {
+                            q.make_interaction(vec![c2; 16], vec![v, v + 1]).unwrap()
+                        } else {
+                            q.make_interaction(vec![c2; 16], vec![v + 1, v]).unwrap()
+                        }
+                    }
+                    _ => q.make_interaction(vec![c2; 64], vec![v, v + 2, v + 1]).unwrap(),
+                }
+            }
+        }
+        6 => {
+            // three-variable FULL (8x8) matrices with positive off-diagonal entries between basis
+            // states differing in one, two (and sometimes three) of the three bits, two-variable
+            // full matrices with single-bit flips, next to one-/two-variable terms; loop updates
+            // are ON for this kind; with and without cluster edges, symmetric and not.
+            let d = *r.pick(&[0.5, 1.0, 2.0]);
+            let x1 = *r.pick(&[0.25, 0.5, 1.0]);
+            let x2 = *r.pick(&[0.25, 0.5, 0.75]);
+            let x3 = *r.pick(&[0.0, 0.125]);
+            let symmetric = r.chance(2, 3);
+            let edges = r.coin();
+            let pop = |x: usize| x.count_ones() as usize;
+            let mut m3 = vec![0.0; 64];
+            for o in 0..8usize {
+                for i in 0..8usize {
+                    m3[(o << 3) | i] = match pop(o ^ i) {
+                        0 => d,
+                        1 => x1,
+                        2 => x2,
+                        _ => x3,
+                    };
+                }
+            }
+            if !symmetric {
+                // break the Ising symmetry (and the constant diagonal): no cluster updates then
+                m3[0] = d + 0.5;
+                m3[(1 << 3) | 2] = 0.0;
+            }
+            let v0 = r.below(nvars as u64 - 2) as usize;
+            let order3 = match r.below(3) {
+                0 => vec![v0, v0 + 1, v0 + 2],
+                1 => vec![v0 + 2, v0, v0 + 1],
+                _ => vec![v0 + 1, v0 + 2, v0],
+            };
+            q.make_interaction(m3, order3).unwrap();
+            for v in 0..nvars - 1 {
+                if r.coin() {
+                    // two-variable full matrix: diagonal d, single-bit flips x1, double flips x2
+                    let mut m2 = vec![0.0; 16];
+                    for o in 0..4usize {
+                        for i in 0..4usize {
+                            m2[(o << 2) | i] = match pop(o ^ i) {
+                                0 => d,
+                                1 => x1,
+                                _ => x2,
+                            };
+                        }
+                    }
+                    q.make_interaction(m2, vec![v, v + 1]).unwrap();
+                } else {
+                    q.make_diagonal_interaction(vec![1.0, 0.0, 0.0, 1.0], vec![v, v + 1]).unwrap();
+                }
+            }
+            for v in 0..nvars {
+                match r.below(3) {
+                    0 => q.make_interaction(vec![1.0, 0.5, 0.5, 1.0], vec![v]).unwrap(),
+                    1 if edges => q.make_interaction(vec![1.0, 1.0, 1.0, 1.0], vec![v]).unwrap(),
+                    _ => {}
+                }
+            }
+            if edges {
+                q.make_interaction(vec![0.5, 0.5, 0.5, 0.5], vec![0]).unwrap();
+            }
+        }
         _ => {
             // mixed: three-variable diagonal term, offset constructors, non-symmetric site terms
             if nvars >= 3 {
@@ -1083,9 +1202,9 @@ fn build_generic(r: &mut SplitMix64, kind: u64, nvars: usize, state: Vec<bool>, 
 }
 
 fn generic_scenario(ctx: &mut Ctx, r: &mut SplitMix64, ncalls: usize) {
-    let kind = *r.pick(&[0u64, 1, 2, 3, 3, 4, 4]);
-    let nvars = r.range(2, 4) as usize;
-    let loops = kind == 0 || (kind != 3 && r.coin());
+    let kind = r.below(7);
+    let nvars = if kind == 6 { r.range(3, 4) as usize } else { r.range(2, 4) as usize };
+    let loops = kind == 0 || kind == 6 || (kind != 3 && r.coin());
     let seed_r = r.next();
     let mut r1 = SplitMix64::new(seed_r);
     let mut r2 = SplitMix64::new(seed_r);
